@@ -228,6 +228,27 @@ class BodyReader:
         raise Unknown("block without return")
 
 
+def guarded_params(fn: ast.FunctionDef):
+    """parameters that the body tests with `is` / `is not` / `==` / truthiness anywhere (independent of whether the body's shape
+    is recognised): the dynamic oracle tries sentinel-like values for them"""
+    names = {a.arg for a in fn.args.args[1:] + fn.args.kwonlyargs}
+    out = []
+    for n in ast.walk(fn):
+        tests = []
+        if isinstance(n, ast.Compare):
+            tests = [n.left] + list(n.comparators)
+        elif isinstance(n, (ast.If, ast.IfExp, ast.While)):
+            tests = [n.test]
+        elif isinstance(n, ast.BoolOp):
+            tests = list(n.values)
+        elif isinstance(n, ast.UnaryOp) and isinstance(n.op, ast.Not):
+            tests = [n.operand]
+        for t in tests:
+            if isinstance(t, ast.Name) and t.id in names and t.id not in out:
+                out.append(t.id)
+    return out
+
+
 def as_observable_ok(cls: ast.ClassDef) -> bool:
     for f in cls.body:
         if isinstance(f, ast.FunctionDef) and f.name == "_as_observable":
@@ -255,7 +276,7 @@ def extract(repo: Path):
                 if not isinstance(f, ast.FunctionDef) or f.name.startswith("_") or is_overload(f):
                     continue
                 row = {"name": f.name, "cls": cls.name, "file": fn.name, "params": params_of(f, drop_self=True),
-                       "recv_self": True, "branches": []}
+                       "recv_self": True, "branches": [], "guarded": guarded_params(f)}
                 br = BodyReader(f, aok)
                 try:
                     if any(p.get("unsupported") for p in row["params"]):
